@@ -378,9 +378,14 @@ class HandshakeOpenFlowHandlers (OpenFlowHandlers):
   def _finish_connecting (self, con):
     con.ofnexus._connect(con)
     con.info("connected")
-    con.connect_time = time.time()
     con.handlers = _default_handlers.handlers
     con.ofnexus.raiseEventNoErrors(ConnectionHandshakeComplete, con)
+    if con.disconnected:
+      # A ConnectionHandshakeComplete handler dropped the connection (or a
+      # send it made failed): it has not been announced, so don't announce
+      # a dead connection (and it gets no ConnectionDown either)
+      return
+    con.connect_time = time.time()
 
     e = con.ofnexus.raiseEventNoErrors(ConnectionUp, con, con.features)
     if con.disconnected:
